@@ -26,6 +26,7 @@ import C18_docs as G  # noqa
 import c18_init as TI  # noqa
 
 APIS = ["sax2", "sax", "dom", "ls"]
+NESTED_DECL = b"<!ELEMENT r (h?, (a | b)*, c?)>"
 
 
 def hexs(b):
@@ -46,7 +47,7 @@ def gen_sweep(ctx, ndocs):
     docs = G.pool(rng, ndocs)
     out = []
     for i, d in enumerate(docs):
-        api = APIS[i % 4] if rng.random() < 0.8 else rng.choice(APIS)
+        api = APIS[(i + i // 12) % 4] if rng.random() < 0.8 else rng.choice(APIS)    # every kind meets every API
         scn = rng.choice(["IG", "IG", "IG", "WF", "DG", "SG"])
         kv = dict(d["cfg"])
         if scn == "WF":
@@ -58,11 +59,18 @@ def gen_sweep(ctx, ndocs):
         dg_ext = scn == "DG" and b"<!DOCTYPE" in d["doc"] and b"SYSTEM" in d["doc"]
         if dg_ext:
             kv["pool"] = 0
+        # known finding C18-DTD-CONTENTSPEC-LEAK: a syntax error inside a NESTED content-model group + an exception thrown by
+        # the error handler.  The only declaration with a nested group the generator writes is NESTED_DECL; documents in which
+        # it is damaged get no handler-exception endings (natural and progressive endings are still explored).
+        dtd_text = d["doc"] + b"".join(d["ext"].values())
+        cs_class = b"<!ELEMENT" in dtd_text and NESTED_DECL not in dtd_text
+        if cs_class:
+            kv["thr"] = 0
         cid = "c%d-%s" % (i, d["kind"])
         out.append((cid, d["kind"] + "/" + api, case_line(cid, d, kv)))
         # object lifetimes of DOM documents and grammar pools on a part of the pool
         if i % 3 == 0:
-            life = "".join(rng.choice("PPAARXDNTC") for _ in range(rng.randrange(2, 9)))
+            life = "".join(rng.choice("PPAARXDNC" if cs_class else "PPAARXDNTC") for _ in range(rng.randrange(2, 9)))
             kv2 = dict(d["cfg"]); kv2.update(scn=scn if scn != "WF" else "IG", pool=0 if dg_ext else rng.choice([0, 1]), life="P" + life)
             cid2 = "l%d-%s" % (i, d["kind"])
             out.append((cid2, "domlife", case_line(cid2, d, kv2).replace("case ", "domlife ", 1)))
@@ -79,7 +87,7 @@ def gen_sweep(ctx, ndocs):
             cid4 = "m%d-%s" % (i, d["kind"])
             out.append((cid4, "misc", case_line(cid4, d, kv4).replace("case ", "misc ", 1)))
         if i % 4 == 1 and d["ext"]:
-            life = "".join(rng.choice("LPPTDNKUZ") for _ in range(rng.randrange(2, 9)))
+            life = "".join(rng.choice("LPPDNKUZ" if cs_class else "LPPTDNKUZ") for _ in range(rng.randrange(2, 9)))
             kv3 = dict(d["cfg"]); kv3.update(api=rng.choice(["sax2", "sax", "dom"]), scn="IG", life="L" + life)
             cid3 = "p%d-%s" % (i, d["kind"])
             out.append((cid3, "poollife", case_line(cid3, d, kv3).replace("case ", "poollife ", 1)))
@@ -399,6 +407,26 @@ def witnesses(ctx, xh, xm, dflt):
             ctx.violation("C18-DG-GRAMMAR-DOUBLE-OWNED", {"what": txt, "request": lines})
     else:
         report_bad(ctx, bad, lines, "discipline violated in the DG grammar-cache witness")
+    # C18-DTD-CONTENTSPEC-LEAK
+    cdoc = b'<?xml version="1.0"?><!DOCTYPE r [<!ELEMENT r (h?, (a | b<)*, c?)><!ELEMENT h (#PCDATA)>]><r><h>t</h></r>'
+    lines = ["init w user=1", "case wCS api=sax2 exc=3 mode=fresh ns=1 pool=0 sch=0 scn=IG val=0 prog=0 doc=%s" % cdoc.hex(), "term w"]
+    rc1, rc2, o, err = run_pipeline(xh, xm, lines, "wCS")
+    ctx.count()
+    st = {}
+    verdicts, bad = judge(ctx, o, lines, "wCS", st)
+    leaks = [ln for lab, ln in bad if ln.split()[2] == "outstanding" and ".k" in lab]
+    if rc1 != 0:
+        ctx.violation("harness-crash", {"what": "content-spec witness crashed", "stderr": err[-1000:], "request": lines})
+    elif leaks and len(leaks) == len(bad):
+        txt = ("DTDScanner::scanChildren: an exception thrown by the application's error handler while a NESTED content-model group "
+               "reports a syntax error passes the outer frames, which only clean up for XMLErrs::Codes: the partially built "
+               "ContentSpecNode tree is never freed (`%s` after the parser was destroyed)" % " ".join(leaks[0].split()[1:5]))
+        if ctx.find_known("C18-DTD-CONTENTSPEC-LEAK"):
+            ctx.known_finding("C18-DTD-CONTENTSPEC-LEAK", txt)
+        else:
+            ctx.violation("C18-DTD-CONTENTSPEC-LEAK", {"what": txt, "verdict": leaks[0], "request": lines})
+    else:
+        report_bad(ctx, bad, lines, "discipline violated in the content-spec witness")
     # C18-XPATH-EXPR-MANAGER: DOMXPathExpressionImpl copies an expression that does not start with '/' with the GLOBAL manager
     # and releases it to the document's manager
     xdoc = b'<r><a x="1">t</a><a>u</a></r>'
@@ -574,7 +602,7 @@ def run(ctx):
     thorough = ctx.tier == "thorough"
     stats = {}
     # ---- 1. main sweep ------------------------------------------------------------------------------
-    ndocs = 1500 if thorough else 96
+    ndocs = 4000 if thorough else 96
     sweep = gen_sweep(ctx, ndocs)
     nchunks = 8
     chunks = [[] for _ in range(nchunks)]
